@@ -1,0 +1,30 @@
+//go:build verif
+
+// Package verifhook holds the simulation seams used by the deterministic
+// simulation harness. With the "verif" build tag off (the default) every
+// function in this package is an empty, inlinable no-op.
+package verifhook
+
+// Yield, when set by the harness, is called at every Point.
+var Yield func(site string, arg interface{})
+
+// CritFn, when set by the harness, is called by log.Crit before the process
+// would exit; the harness ends the calling goroutine instead ("process died").
+var CritFn func(msg string)
+
+// Enabled reports whether the hooks are compiled in.
+const Enabled = true
+
+// Point is a cooperative scheduling point.
+func Point(site string, arg interface{}) {
+	if Yield != nil {
+		Yield(site, arg)
+	}
+}
+
+// Crit is called right before a fatal log exits the process.
+func Crit(msg string) {
+	if CritFn != nil {
+		CritFn(msg)
+	}
+}
